@@ -3,7 +3,7 @@
 package crlloader
 
 //@ spec func loaderOK(l ref) bool = l != nil && (typeis(l, *URLLoader) ==> as(l, *URLLoader) != nil && as(l, *URLLoader).Logger != nil) && (typeis(l, *FileLoader) ==> as(l, *FileLoader) != nil && as(l, *FileLoader).Logger != nil) && (typeis(l, *MultiSchemesCRLLoader) ==> multiOK(as(l, *MultiSchemesCRLLoader)))
-//@ spec func multiOK(m ref) bool = m != nil && m.Logger != nil && (forall i int :: 0 <= i && i < len(m.Loaders) ==> m.Loaders[i] != nil && typeis(m.Loaders[i], *URLLoader) && as(m.Loaders[i], *URLLoader) != nil && as(m.Loaders[i], *URLLoader).Logger != nil) && (m.lastSuccessfulLoader != nil ==> typeis(m.lastSuccessfulLoader, *URLLoader) && as(m.lastSuccessfulLoader, *URLLoader) != nil && as(m.lastSuccessfulLoader, *URLLoader).Logger != nil)
+//@ spec func multiOK(m ref) bool = m != nil && m.Logger != nil && (forall a int :: {elem(m.Loaders, a)} offset(m.Loaders) <= a && a < offset(m.Loaders) + len(m.Loaders) ==> elem(m.Loaders, a) != nil && typeis(elem(m.Loaders, a), *URLLoader) && as(elem(m.Loaders, a), *URLLoader) != nil && as(elem(m.Loaders, a), *URLLoader).Logger != nil) && (m.lastSuccessfulLoader != nil ==> typeis(m.lastSuccessfulLoader, *URLLoader) && as(m.lastSuccessfulLoader, *URLLoader) != nil && as(m.lastSuccessfulLoader, *URLLoader).Logger != nil)
 //@ spec func isHex64(s string) bool uninterpreted
 //@ spec func locId(s string) string = hexOf(digestOf(crypto.SHA256, s))
 //@ axiom hex_of_sha256_is_hex64: forall s string :: isHex64(hexOf(digestOf(crypto.SHA256, s)))
@@ -39,7 +39,7 @@ package crlloader
 
 //@ func DefaultCRLLoaderFactory.CreatePreferredCrlLoader
 //@   props C10 C20
-//@   loop 1 invariant forall k int :: 0 <= k && k < len(cdpLoaders) ==> cdpLoaders[k] != nil && typeis(cdpLoaders[k], *URLLoader) && as(cdpLoaders[k], *URLLoader) != nil && as(cdpLoaders[k], *URLLoader).Logger != nil
+//@   loop 1 invariant forall a int :: {elem(cdpLoaders, a)} offset(cdpLoaders) <= a && a < offset(cdpLoaders) + len(cdpLoaders) ==> elem(cdpLoaders, a) != nil && typeis(elem(cdpLoaders, a), *URLLoader) && as(elem(cdpLoaders, a), *URLLoader) != nil && as(elem(cdpLoaders, a), *URLLoader).Logger != nil
 //@   loop 1 invariant forall i int :: 0 <= i && i <= $idx && hasprefix(lower(crlLocations.CRLDistributionPoints[i]), "http") ==> len(cdpLoaders) > 0
 //@   loop 1 invariant len(cdpLoaders) > 0 ==> exists i int :: 0 <= i && i <= $idx && hasprefix(lower(crlLocations.CRLDistributionPoints[i]), "http")
 
